@@ -17,6 +17,7 @@ THEOREMS = ['C05_spec_ok', 'C05_depinfo_roundtrip', 'C05_depinfo_lossless', 'C05
             'C05_accepted_shape', 'C05_staticlibs_lookup', 'C05_staticlib_search_order', 'C05_staticlib_alt_spelling_refuted',
             'C05_staticlib_modifier_hashed']
 ASSUMPTIONS = [
+    'sccache is REQUIRED to re-read every input file (sources, included files, --extern rlibs, static libraries, target json) on every request: a replacement with the same path, size and modification time must still be seen (monitored in-process by keypair same_stamp and end to end by the sm_* steps; no theorem depends on file metadata)',
     'named assumption about rustc (observed with rustc 1.95, unix target): for `-l static[:modifiers]=NAME` the archive bundled is libNAME.a from the FIRST of the `-L native=DIR` / `-L all=DIR` / `-L DIR` directories, in command-line order, that contains it (Model/RustArgs.v rustc_static_pick)',
     'rustc itself is not modelled: that equal inputs give equal rustc outputs is sampled by the e2e leg with rustc 1.95, not proved',
     'BLAKE3 is collision-free on the pre-images compared (the theorems are about the pre-image, the byte string fed to the digest)',
@@ -449,7 +450,7 @@ def classify_staticlib(case, out, v):
 # ------------------------------------------------------------------------------------------------ key / keypair
 
 CONTENTS = [b'', b'pub fn f() {}\n', b'pub fn f() { }\n', b'mod a;\n', b'x', b'{"llvm-target": "x"}', b'{"llvm-target": "y"}',
-            b'rlib-v1', b'rlib-v2', b'data1', b'data2']
+            b'rlib-v1', b'rlib-v2', b'data1', b'data2', b'pub fn g() {}\n', b'mod b;\n']
 _DIGESTS = {}
 
 
@@ -513,6 +514,12 @@ ARG_PERMS = [
     ('cfg', [b'--cfg=p'], [b'--cfg', b'feature="z"'], True),
     ('L', [b'-L', b'dependency=d1'], [b'-L', b'dependency=d2'], True),
 ]
+
+
+# partner content of the SAME byte length, per file class
+SAME_SIZE = {} if len(CONTENTS) < 13 else {CONTENTS[1]: CONTENTS[11], CONTENTS[11]: CONTENTS[1], CONTENTS[3]: CONTENTS[12], CONTENTS[12]: CONTENTS[3],
+             b'rlib-v1': b'rlib-v2', b'rlib-v2': b'rlib-v1', b'data1': b'data2', b'data2': b'data1',
+             CONTENTS[5]: CONTENTS[6], CONTENTS[6]: CONTENTS[5]}
 
 
 def base_request(rng):
@@ -585,7 +592,7 @@ def mutate(rng, r):
         kinds += ['static_content']
     if r.get('two_dirs'):
         kinds += ['static_picked_content', 'static_picked_content', 'static_shadowed_content', 'static_dirs_swap', 'static_dirs_swap']
-    kinds += ['envdep_class'] * 4 + ['arg_perm'] * 4
+    kinds += ['envdep_class'] * 4 + ['arg_perm'] * 4 + ['same_stamp'] * 5 + ['content_swap'] * 4
     if b'spec.json' in argv:
         kinds += ['target_content']
     k = rng.choice(kinds)
@@ -673,6 +680,69 @@ def mutate(rng, r):
     elif k == 'static_dirs_swap':
         i = argv.index(b'native=zz_own')
         argv[i], argv[i + 2] = argv[i + 2], argv[i]
+    elif k == 'same_stamp':
+        # one input file of some class replaced by other content of the SAME size, with the SAME (old) mtime and path,
+        # inside one process: the inputs must be re-read on every request
+        r0 = clone(r)
+        r0['files'][b'src/a.rs'] = CONTENTS[1]
+        r0['files'][b'data/d.txt'] = b'data1'
+        r0['srcs'] = [b'src/lib.rs', b'src/a.rs', b'data/d.txt']
+        r0['files'].setdefault(b'src/lib.rs', CONTENTS[3])
+        a0 = [x for x in r0['argv']]
+        if b'--extern' not in a0:
+            r0['files'][b'deps/libbar.rlib'] = b'rlib-v1'
+            a0 += [b'-L', b'dependency=deps', b'--extern', b'bar=deps/libbar.rlib']
+        if b'static=nat' not in a0:
+            r0['files'][b'libs/libnat.a'] = ARCHIVES[0]
+            a0 += [b'-L', b'native=libs', b'-l', b'static=nat']
+        if not any(a.endswith(b'.json') for a in a0):
+            if b'--target' in a0:
+                i = a0.index(b'--target')
+                del a0[i:i + 2]
+            r0['files'][b'spec.json'] = CONTENTS[5]
+            a0 += [b'--target', b'spec.json']
+        r0['argv'] = a0
+        m = clone(r0)
+        cls = rng.choice(['source', 'included', 'extern', 'staticlib', 'target_json'])
+        if cls == 'source':
+            m['files'][b'src/a.rs'] = SAME_SIZE[r0['files'][b'src/a.rs']]
+        elif cls == 'included':
+            m['files'][b'data/d.txt'] = b'data2'
+        elif cls == 'extern':
+            ext = sorted(x for x in m['files'] if x.endswith(b'.rlib'))[0]
+            m['files'][ext] = SAME_SIZE.get(m['files'][ext], b'rlib-v2')
+        elif cls == 'staticlib':
+            lib = sorted(x for x in m['files'] if x.endswith(b'libnat.a'))
+            if b'zz_own/libnat.a' in lib:
+                lib = [b'zz_own/libnat.a']
+            m['files'][lib[0]] = ARCHIVES[1] if m['files'][lib[0]] == ARCHIVES[0] else ARCHIVES[0]
+        else:
+            js = [a for a in m['argv'] if a.endswith(b'.json')][0]
+            m['files'][js] = SAME_SIZE[m['files'][js]]
+        return 'same_stamp:' + cls, exp, r0, m, b'keep_mtime'
+    elif k == 'content_swap':
+        # the contents of two files of one hashed group are EXCHANGED: same multiset of contents, other assignment
+        r0 = clone(r)
+        cls = rng.choice(['sources', 'externs'])
+        if cls == 'sources':
+            r0['files'][b'src/lib.rs'] = CONTENTS[3]
+            r0['files'][b'src/a.rs'] = CONTENTS[1]
+            r0['files'][b'src/b.rs'] = CONTENTS[2]
+            r0['srcs'] = rng.shuffle([b'src/lib.rs', b'src/a.rs', b'src/b.rs'])
+            m = clone(r0)
+            x, y = rng.choice([(b'src/a.rs', b'src/b.rs'), (b'src/lib.rs', b'src/b.rs'), (b'src/lib.rs', b'src/a.rs')])
+        else:
+            a0 = [a for a in r0['argv']]
+            for nm, c in ((b'bar', b'rlib-v1'), (b'baz', b'rlib-v2')):
+                f = b'deps/lib' + nm + b'.rlib'
+                r0['files'][f] = c
+                if nm + b'=' + f not in a0:
+                    a0 += [b'--extern', nm + b'=' + f]
+            r0['argv'] = a0
+            m = clone(r0)
+            x, y = b'deps/libbar.rlib', b'deps/libbaz.rlib'
+        m['files'][x], m['files'][y] = r0['files'][y], r0['files'][x]
+        return 'content_swap:' + cls, exp, r0, m
     elif k == 'envdep_class':
         # a variable the crate reads through env!/option_env!, of every name class, changes: unset / empty / value
         name = rng.choice(ENVDEP_NAMES)
@@ -718,9 +788,45 @@ def gen_keypair(rng, n):
     out = []
     for _ in range(n):
         r = base_request(rng)
-        k, exp, a, b = mutate(rng, r)
-        out.append([encode_request(a), encode_request(b), [k.encode(), exp.encode() if exp else b'none']])
+        res = mutate(rng, r)
+        k, exp, a, b = res[:4]
+        meta = [k.encode(), exp.encode() if exp else b'none'] + list(res[4:])
+        out.append([encode_request(a), encode_request(b), meta])
     return out
+
+
+CWD_SUBS = [b'one', b'two', b'a/b', b'a/c', b'one/.', b'one/', b'a//b', b'deep/er/dir', b'']
+
+
+def gen_cwdpair(rng, n):
+    out = []
+    for _ in range(n):
+        r = base_request(rng)
+        r['argv'] = [a for a in r['argv']]
+        remap = rng.choice([None, b'@P@=/x', b'@P@=/x', b'@P@/=/ws', b'@P@/one=/x', b'/unrelated=/y', b'@P@/a=/x'])
+        if remap is not None:
+            r['argv'] += ([b'--remap-path-prefix', remap] if rng.chance(1, 2) else [b'--remap-path-prefix=' + remap])
+        a, b = rng.choice(CWD_SUBS), rng.choice(CWD_SUBS)
+        if rng.chance(1, 6):
+            b = a
+        out.append([encode_request(r), a, b, [b'remap' if remap else b'plain']])
+    return out
+
+
+def mon_cwdpair(case, out):
+    """the same request in two different directories (with or without --remap-path-prefix of a common ancestor) must
+    get two keys; in one and the same directory one key"""
+    if not isinstance(out, list) or len(out) != 3:
+        return ['malformed output']
+    if out[1] != 1 or out[2] != 1:
+        return []
+    same_dir = components(b'/p/' + case[1]) == components(b'/p/' + case[2])
+    if out[0] == 1 and not same_dir:
+        return ['one request compiled in the directories %r and %r under one parent (%s) got the same key'
+                % (case[1], case[2], case[3][0].decode())]
+    if out[0] != 1 and same_dir:
+        return ['one request compiled twice in the same directory got two keys']
+    return []
 
 
 def mon_key_one(res):
@@ -892,6 +998,11 @@ def legs(tier):
             nontrivial=lambda c, o: isinstance(o, list) and len(o) == 3 and o[1][:1] == [b'ok'] and o[2][:1] == [b'ok'],
             rule='pairs of requests in one working directory that differ by one mutation out of 24 classes; the monitor demands '
                  'different keys for a changed hashed input and equal keys for reorderings / unhashed inputs'),
+        Leg('cwdpair', lambda rng, t: gen_cwdpair(rng, 6000 if big else 400), monitor=mon_cwdpair,
+            nontrivial=lambda c, o: isinstance(o, list) and len(o) == 3 and o[1] == 1,
+            stats=lambda c, o: [c[3][0].decode()],
+            rule='one request through the real hasher in two directories under a common parent, with / without '
+                 '--remap-path-prefix=<parent or sub-directory or unrelated>=...; keys must differ iff the directories differ'),
     ]
 
 
@@ -911,7 +1022,7 @@ def search_on_impl(rep, known):
     from ..prng import Rng
     exe = pipeline.harness_bin(HARNESS_BIN)
     for leg in legs(rep.tier):
-        if leg.name not in ('envdep', 'depinfo', 'keypair', 'args', 'key', 'staticlib'):
+        if leg.name not in ('envdep', 'depinfo', 'keypair', 'args', 'key', 'staticlib', 'cwdpair'):
             continue
         rng = Rng(rep.seed).fork(ID + ':' + leg.name)
         cases = pipeline.corpus_cases(ID, leg.name) + list(leg.gen(rng, rep.tier))
